@@ -8,6 +8,13 @@
  *   rngdrv seq    runs one after the other (each thread joined before the next starts)           [default]
  *   rngdrv conc   all runs at the same time behind a barrier, yielding between operations
  *   rngdrv main   all runs one after the other on the MAIN thread (state carries over from run to run)
+ *   rngdrv ctx    every run names its execution context in its first line `ctx <where>`; executed in this order:
+ *                   main         on the main thread, before the library has run any experiment
+ *                   thread       on a plain pthread created before any experiment
+ *                   worker       as a trial inside cimba_run_experiment (one experiment over all such runs: the library's
+ *                                own worker threads, several trials at once)
+ *                   mainafter    on the main thread after cimba_run_experiment has returned
+ *                   threadafter  on a plain pthread created after the experiment (inherits the creator's FP environment)
  *
  * Operations (same line protocol as lean/Drivers/RngMain.lean for the integer-only ones):
  *   seed <u64>      cmb_random_initialize                      -> seed
@@ -19,6 +26,10 @@
  *   curseed         cmb_random_curseed                          -> curseed <hex16>
  *   term            cmb_random_terminate                        -> term
  *   mark            no-op, printed                              -> mark
+ *   fpenv           the bits of MXCSR that change the VALUE of double arithmetic (rounding control, FTZ, DAZ), not the
+ *                   exception masks / flags                      -> fpenv <hex4>
+ *   ctx <where>     see above (no-op, printed)                   -> ctx <where>
+ *   distd <name> <n> <params...>  as dist, FNV-1a digest only    -> distd <name> <hex16>
  *   dist <name> <n> <params...>   n samples of a distribution; doubles as IEEE bit patterns, integers as is
  *                                                               -> dist <name> <hex16>...
  * Built against the library compiled from the current working tree of the repository.
@@ -33,6 +44,9 @@
 #include <stdlib.h>
 #include <string.h>
 
+#include <xmmintrin.h>
+
+#include "cimba.h"
 #include "cmb_random.h"
 
 #define MAXP 64
@@ -190,7 +204,14 @@ static void exec_op(struct run *r, char *line)
     else if (strcmp(op, "mark") == 0) {
         emit(r, "mark\n");
     }
-    else if (strcmp(op, "dist") == 0) {
+    else if (strcmp(op, "fpenv") == 0) {
+        emit(r, "fpenv %04x\n", _mm_getcsr() & 0xE040u);
+    }
+    else if (strcmp(op, "ctx") == 0) {
+        emit(r, "%s\n", line);
+    }
+    else if (strcmp(op, "dist") == 0 || strcmp(op, "distd") == 0) {
+        const int digest = (op[4] == 'd');
         double p[MAXP];
         int np = 0, off = 0;
         if (sscanf(line, "%*s %47s %llu%n", name, &n, &off) < 2) { emit(r, "bad-op %s\n", line); return; }
@@ -203,12 +224,15 @@ static void exec_op(struct run *r, char *line)
             q = end;
         }
         struct cmb_random_alias *alias = NULL;
-        emit(r, "dist %s", name);
+        uint64_t h = UINT64_C(14695981039346656037);
+        emit(r, "%s %s", op, name);
         for (unsigned long long i = 0; i < n; i++) {
             uint64_t res;
             if (!sample(name, np, p, &res, &alias)) { emit(r, " unknown-or-too-few-parameters"); break; }
-            emit(r, " %016" PRIx64, res);
+            if (digest) h = fnv(h, res);
+            else emit(r, " %016" PRIx64, res);
         }
+        if (digest) emit(r, " %016" PRIx64, h);
         emit(r, "\n");
         if (alias != NULL) cmb_random_alias_destroy(alias);
     }
@@ -226,6 +250,48 @@ static void *run_thread(void *arg)
         if (concurrent) sched_yield();
     }
     return NULL;
+}
+
+/* ---- execution contexts (mode ctx) ---- */
+struct trial {
+    int run;
+};
+
+static void trial_func(void *p)
+{
+    const struct trial *t = p;
+    run_thread(&runs[t->run]);
+}
+
+static int in_context(const struct run *r, const char *where)
+{
+    char w[32] = "";
+    if (r->nops == 0 || sscanf(r->ops[0], "ctx %31s", w) != 1) return strcmp(where, "main") == 0;
+    return strcmp(w, where) == 0;
+}
+
+static void on_new_thread(const char *where)
+{
+    for (int i = 0; i < nruns; i++) {
+        if (in_context(&runs[i], where)) {
+            pthread_t th;
+            pthread_create(&th, NULL, run_thread, &runs[i]);
+            pthread_join(th, NULL);
+        }
+    }
+}
+
+static void run_contexts(void)
+{
+    for (int i = 0; i < nruns; i++) if (in_context(&runs[i], "main")) run_thread(&runs[i]);
+    on_new_thread("thread");
+    struct trial *tr = calloc((size_t)nruns + 1u, sizeof *tr);
+    int nt = 0;
+    for (int i = 0; i < nruns; i++) if (in_context(&runs[i], "worker")) tr[nt++].run = i;
+    if (nt > 0) cimba_run_experiment(tr, (uint64_t)nt, sizeof *tr, trial_func);
+    for (int i = 0; i < nruns; i++) if (in_context(&runs[i], "mainafter")) run_thread(&runs[i]);
+    on_new_thread("threadafter");
+    free(tr);
 }
 
 static struct run *new_run(void)
@@ -263,6 +329,9 @@ int main(int argc, char **argv)
     }
     if (strcmp(mode, "main") == 0) {
         for (int i = 0; i < nruns; i++) run_thread(&runs[i]);
+    }
+    else if (strcmp(mode, "ctx") == 0) {
+        run_contexts();
     }
     else if (strcmp(mode, "conc") == 0) {
         concurrent = 1;
